@@ -618,6 +618,16 @@ fn probes_for(rng: &mut Rng, tiles: &ifm::TileMap) -> String {
 	}
 	qs.push((0, 0, 0));
 	qs.push((31, (1u32 << 31) - 1 + (1u32 << 31), 0));
+	// extreme coordinates: corners of the deepest levels and of the levels in use
+	qs.push((31, (1u32 << 31) - 1, (1u32 << 31) - 1));
+	qs.push((31, 0, (1u32 << 31) - 1));
+	qs.push((30, (1u32 << 30) - 1, 0));
+	for z in tiles.keys().map(|k| k.0).collect::<std::collections::BTreeSet<u8>>().into_iter().take(3) {
+		let m = ((1u64 << z) - 1) as u32;
+		qs.push((z, 0, 0));
+		qs.push((z, m, m));
+		qs.push((z, m, 0));
+	}
 	let z = rng.range(0, 20) as u8;
 	qs.push((z, rng.below(1 << z) as u32, rng.below(1 << z) as u32));
 	probes_str(&qs)
@@ -669,7 +679,7 @@ fn vt_cases(g: &mut G, n: usize) {
 		v
 	};
 	let good_ti = tidx(&[(0, 4), (4, 4), (8, 4), (12, 4)]);
-	let probes = "1/0/0,1/1/0,1/0/1,1/1/1,1/1/2,0/0/0,2/0/0";
+	let probes = "1/0/0,1/1/0,1/0/1,1/1/1,1/1/2,0/0/0,2/0/0,2/3/3,31/2147483647/2147483647,31/0/0,30/1073741823/0";
 	let meta = b"{\"name\":\"x\"}";
 	// valid baseline
 	g.push("vt", "valid", vt_custom(meta, |o, tl, il| blockdef(1, 0, 0, [0, 0, 1, 1], o, tl, il), &good_ti, &tiles), probes);
@@ -720,6 +730,13 @@ fn vt_cases(g: &mut G, n: usize) {
 		if g.rng.chance(1, 2) {
 			ch.meta = Some(b"{\"name\":\"stra\xc3\x9fe\"}".to_vec());
 		}
+		// layout freedoms of the independent encoder (not only what /repo's writer emits)
+		ch.range_mode = g.rng.below(3) as u8;
+		ch.empty_block = g.rng.chance(1, 3);
+		ch.shuffle_blocks = g.rng.chance(1, 2);
+		ch.shuffle_index = g.rng.chance(1, 2);
+		ch.share = g.rng.chance(1, 2);
+		ch.max_gap = g.rng.below(3) as usize * 7;
 		let mut r2 = g.rng.fork();
 		let enc = ifm::encode_versatiles(&tiles, &ch, &mut r2);
 		let b = enc.bytes;
@@ -793,7 +810,7 @@ fn pm_custom(root: &[u8], meta: &[u8], leaves: &[u8], data: &[u8]) -> Vec<u8> {
 
 fn pm_cases(g: &mut G, n: usize, _thorough: bool) {
 	let e = |id, off, len, run| ifm::PmEntry { id, off, len, run };
-	let probes = "0/0/0,1/0/0,1/1/1,2/1/1,3/4/4,10/5/5";
+	let probes = "0/0/0,1/0/0,1/1/1,2/1/1,3/4/4,3/7/7,10/5/5,31/2147483647/2147483647,31/0/2147483647,30/0/0";
 	let data = b"AAAABBBBCCCC";
 	let meta = b"{}";
 	let root = ifm::serialize_dir(&[e(0, 0, 4, 1), e(1, 4, 4, 2), e(5, 8, 4, 1)], true);
@@ -877,6 +894,13 @@ fn pm_cases(g: &mut G, n: usize, _thorough: bool) {
 		ch.icomp = *g.rng.pick(&[ifm::Comp::None, ifm::Comp::None, ifm::Comp::Gzip]);
 		ch.levels = *g.rng.pick(&[1u8, 2, 3]);
 		ch.merge_runs = g.rng.chance(1, 2);
+		ch.share = g.rng.chance(1, 2);
+		ch.offset_zero = g.rng.chance(1, 2);
+		ch.mixed_root = g.rng.chance(1, 3);
+		ch.clustered = g.rng.chance(1, 2);
+		ch.counts_zero = g.rng.chance(1, 3);
+		ch.max_gap = g.rng.below(3) as usize * 5;
+		ch.section_order = *g.rng.pick(&[[0u8, 2, 1], [0, 1, 2], [1, 0, 2], [2, 1, 0]]);
 		let mut r2 = g.rng.fork();
 		let enc = ifm::encode_pmtiles(&tiles, &ch, &mut r2);
 		let b = enc.bytes;
@@ -1195,6 +1219,439 @@ fn vpl_limit(g: &mut G, thorough: bool) {
 	}
 }
 
+// ---------------------------------------------------------------------------------------- checklist classes
+
+fn small_vt() -> (Vec<u8>, &'static str) {
+	let blockdef = |o: u64, tl: u64, il: u32| {
+		let mut v = vec![1u8];
+		v.extend(0u32.to_be_bytes());
+		v.extend(0u32.to_be_bytes());
+		v.extend([0u8, 0, 1, 1]);
+		v.extend(o.to_be_bytes());
+		v.extend(tl.to_be_bytes());
+		v.extend(il.to_be_bytes());
+		v
+	};
+	let mut ti = vec![];
+	for (o, l) in [(0u64, 4u32), (4, 4), (8, 4), (12, 4)] {
+		ti.extend(o.to_be_bytes());
+		ti.extend(l.to_be_bytes());
+	}
+	(vt_custom(b"{\"name\":\"x\"}", |o, tl, il| blockdef(o, tl, il), &ti, b"AAAABBBBCCCCDDDD"), "1/0/0,1/1/0,1/0/1,1/1/1,0/0/0,2/0/0")
+}
+
+/// uncompressed PMTiles with a root directory, one leaf directory and two tiles
+fn small_pm() -> (Vec<u8>, &'static str) {
+	let e = |id, off, len, run| ifm::PmEntry { id, off, len, run };
+	let leaf = ifm::serialize_dir(&[e(1, 0, 4, 2), e(4, 4, 4, 1)], true);
+	let root = ifm::serialize_dir(&[e(0, 8, 4, 1), e(1, 0, leaf.len() as u64, 0)], false);
+	(pm_custom(&root, b"{}", &leaf, b"AAAABBBBCCCC"), "0/0/0,1/0/0,1/0/1,1/1/1,1/1/0,2/0/0")
+}
+
+/// class 2 (before open): damage at EVERY position of two small containers — every single bit,
+/// every truncation length, every 8-byte window zeroed or set to ff, extension by 1 / 100 bytes
+fn structural_damage(g: &mut G, thorough: bool) {
+	for (ep, epf, (base, probes)) in [("vt", "vtfile", small_vt()), ("pm", "pmfile", small_pm())] {
+		g.push(ep, "valid", base.clone(), probes);
+		for at in 0..base.len() {
+			for bit in 0..8 {
+				let mut v = base.clone();
+				v[at] ^= 1 << bit;
+				g.push(ep, "every-bit", v.clone(), probes);
+				if thorough && bit % 3 == 0 {
+					g.push(epf, "every-bit", v, probes);
+				}
+			}
+			g.push(ep, "every-truncation", base[..at].to_vec(), probes);
+			if at % 4 == 0 {
+				g.push(epf, "every-truncation", base[..at].to_vec(), probes);
+			}
+			if at + 8 <= base.len() {
+				for fill in [0u8, 0xff] {
+					let mut v = base.clone();
+					for x in &mut v[at..at + 8] {
+						*x = fill;
+					}
+					g.push(ep, "every-window", v, probes);
+				}
+			}
+			if at + 4 <= base.len() {
+				for val in [u32::MAX, u32::MAX - 1, 0x8000_0000, 65535, 65536] {
+					for be in [true, false] {
+						let mut v = base.clone();
+						v[at..at + 4].copy_from_slice(&if be { val.to_be_bytes() } else { val.to_le_bytes() });
+						g.push(ep, "every-u32", v, probes);
+					}
+				}
+			}
+		}
+		for extra in [1usize, 100] {
+			let mut v = base.clone();
+			v.extend(std::iter::repeat(0u8).take(extra));
+			g.push(ep, "extend", v.clone(), probes);
+			g.push(epf, "extend", v, probes);
+		}
+	}
+}
+
+/// class 2 (after open): the file changes underneath an opened reader with warm caches
+fn after_open(g: &mut G, scratch: &std::path::Path) {
+	let damages = |len: usize| -> Vec<String> {
+		let mut v = vec!["t0".to_string(), "t1".into(), "z".into(), "g".into(), "d".into(), "x1".into(), "x4096".into()];
+		for k in [16usize, 65, 66, 67, 126, 127, 128, 512, 4096, len / 2, len.saturating_sub(1)] {
+			if k < len {
+				v.push(format!("t{k}"));
+			}
+		}
+		v
+	};
+	let (vt, vtp) = small_vt();
+	let (pm, pmp) = small_pm();
+	for d in damages(vt.len()) {
+		g.push("vtfile", "after-open", vt.clone(), &format!("{d}|{vtp}"));
+	}
+	for d in damages(pm.len()) {
+		g.push("pmfile", "after-open", pm.clone(), &format!("{d}|{pmp}"));
+	}
+	// larger containers from the independent encoders
+	for i in 0..6 {
+		let tiles = gen_tiles(&mut g.rng, false);
+		let probes = probes_for(&mut g.rng, &tiles);
+		let mut r2 = g.rng.fork();
+		let b = if i % 2 == 0 {
+			ifm::encode_versatiles(&tiles, &ifm::VtChoices::plain(ifm::Fmt::Pbf, ifm::Comp::Gzip), &mut r2).bytes
+		} else {
+			let mut ch = ifm::PmChoices::plain(1, 2);
+			ch.levels = 2;
+			ifm::encode_pmtiles(&tiles, &ch, &mut r2).bytes
+		};
+		if b.len() > 60_000 {
+			continue;
+		}
+		for d in damages(b.len()) {
+			g.push(if i % 2 == 0 { "vtfile" } else { "pmfile" }, "after-open", b.clone(), &format!("{d}|{probes}"));
+		}
+	}
+	// tar / directory
+	let members = vec![ifm::TarMember::file("1/0/0.pbf", b"AAAA"), ifm::TarMember::file("1/1/1.pbf", b"BBBB"), ifm::TarMember::file("tiles.json", b"{\"name\":\"x\"}")];
+	if let Ok(t) = ifm::encode_tar(&members, 0) {
+		for d in damages(t.len()) {
+			g.push("tar", "after-open", t.clone(), &format!("{d}|1/0/0,1/1/1,1/0/1,0/0/0"));
+		}
+		for d in ["d", "z"] {
+			g.push("dir", "after-open", t.clone(), &format!("{d}|1/0/0,1/1/1,1/0/1,0/0/0"));
+		}
+	}
+	// mbtiles (few: every case starts connection pools)
+	std::fs::create_dir_all(scratch).unwrap();
+	let mut tiles = ifm::TileMap::new();
+	tiles.insert((1, 0, 0), b"AAAA".to_vec());
+	tiles.insert((1, 1, 1), b"BBBB".to_vec());
+	let ch = ifm::MbChoices { fmt: ifm::Fmt::Png, as_view: false, with_index: true, extra_meta: vec![], shuffle_rows: false };
+	let p = scratch.join("after.mbtiles");
+	let mut r2 = g.rng.fork();
+	if ifm::encode_mbtiles(&p, &ifm::tiles_to_rows(&tiles), &ch, &mut r2).is_ok() {
+		if let Ok(b) = std::fs::read(&p) {
+			for d in ["t0", "t100", "t4096", "t4097", "z", "g", "d", "x1"] {
+				g.push("mb", "after-open", b.clone(), &format!("{d}|1/0/0,1/1/1,1/0/1,0/0/0"));
+			}
+			// class 1: SQLite page boundaries and the page-size field of the header
+			for cut in [99usize, 100, 101, 4095, 4096, 4097, 8191, 8192, 8193] {
+				if cut < b.len() {
+					g.push("mb", "page-boundary", b[..cut].to_vec(), "1/0/0,1/1/1");
+				}
+			}
+			for (hi, lo) in [(0u8, 0u8), (0, 1), (2, 0), (16, 0), (16, 1), (0xff, 0xff), (0x80, 0)] {
+				let mut v = b.clone();
+				v[16] = hi;
+				v[17] = lo;
+				g.push("mb", "page-boundary", v, "1/0/0,1/1/1");
+			}
+		}
+	}
+	let _ = std::fs::remove_file(&p);
+}
+
+fn long_varint(mut v: u64, width: usize) -> Vec<u8> {
+	// non-minimal encoding padded with continuation bytes to `width` bytes
+	let mut o = vec![];
+	for i in 0..width {
+		let b = (v & 0x7f) as u8;
+		v >>= 7;
+		o.push(if i + 1 < width { b | 0x80 } else { b });
+	}
+	o
+}
+
+/// class 1: the literals and bounds on the open / lookup paths
+fn thresholds(g: &mut G) {
+	// --- versatiles header: every byte x a few values; length 65/66/67; ranges at file_len±1 and u32 borders
+	let (vt, vtp) = small_vt();
+	for at in 0..66 {
+		for val in [0u8, 1, 2, 3, 0x10, 0x14, 0x15, 0x20, 0x23, 0x24, 0x7f, 0x80, 0xff] {
+			if vt[at] != val {
+				let mut v = vt.clone();
+				v[at] = val;
+				g.push("vthdr", "every-header-byte", v[..66].to_vec(), "");
+				if at >= 14 {
+					g.push("vt", "every-header-byte", v, vtp);
+				}
+			}
+		}
+	}
+	for l in [0usize, 1, 13, 14, 65, 67] {
+		let mut v = vt[..l.min(vt.len())].to_vec();
+		v.resize(l, 0);
+		g.push("vthdr", "header-length", v.clone(), "");
+		g.push("vt", "header-length", v, vtp);
+	}
+	let flen = vt.len() as u64;
+	let near: Vec<u64> = vec![flen - 1, flen, flen + 1, u32::MAX as u64 - 1, u32::MAX as u64, u32::MAX as u64 + 1, i32::MAX as u64, i32::MAX as u64 + 1, 65535, 65536, 0];
+	for &x in &near {
+		for at in [34usize, 42, 50, 58] {
+			let mut v = vt.clone();
+			v[at..at + 8].copy_from_slice(&x.to_be_bytes());
+			g.push("vt", "range-at-file-length", v.clone(), vtp);
+			g.push("vtfile", "range-at-file-length", v, vtp);
+		}
+		// offset + length exactly at / one beyond the end of the file
+		for at in [34usize, 50] {
+			let off = u64::from_be_bytes(vt[at..at + 8].try_into().unwrap());
+			for end in [flen - 1, flen, flen + 1] {
+				let mut v = vt.clone();
+				v[at + 8..at + 16].copy_from_slice(&end.saturating_sub(off).to_be_bytes());
+				g.push("vt", "range-at-file-length", v, vtp);
+			}
+		}
+	}
+	let (pm, pmp) = small_pm();
+	let plen = pm.len() as u64;
+	for &x in near.iter().chain([plen - 1, plen, plen + 1].iter()) {
+		for at in (8..72).step_by(8) {
+			let mut v = pm.clone();
+			v[at..at + 8].copy_from_slice(&x.to_le_bytes());
+			g.push("pm", "range-at-file-length", v.clone(), pmp);
+			if at % 16 == 8 {
+				g.push("pmfile", "range-at-file-length", v, pmp);
+			}
+		}
+	}
+	for l in [0usize, 1, 7, 8, 126, 128] {
+		let mut v = pm[..l.min(pm.len())].to_vec();
+		v.resize(l, 0);
+		g.push("pmhdr", "header-length", v.clone(), "");
+		g.push("pm", "header-length", v, pmp);
+	}
+	// --- entry counts 0 / 1 / 65535 / 65536 / 65537, 10^10 and 10^10 + 1 announced
+	let e = |id, off, len, run| ifm::PmEntry { id, off, len, run };
+	for n in [0u64, 1, 2, 65535, 65536, 65537] {
+		let es: Vec<ifm::PmEntry> = (0..n).map(|i| e(i, i * 2, 2, 1)).collect();
+		let dir = ifm::serialize_dir(&es, n % 2 == 0);
+		g.push("pmdir", "entry-count", dir.clone(), "");
+		g.push("pmfind", "entry-count", dir.clone(), &format!("0,1,{},{},{}", n.saturating_sub(1), n, n + 1));
+		let data = vec![0x41u8; (n as usize * 2).max(4)];
+		g.push("pm", "entry-count", pm_custom(&dir, b"{}", &[], &data), "0/0/0,1/0/0,8/255/255,9/0/0");
+	}
+	for n in [10_000_000_000u64 - 1, 10_000_000_000, 10_000_000_001] {
+		let mut v = varint(n);
+		v.extend([0, 1, 1, 1]);
+		g.push("pmdir", "entry-count", v, "");
+	}
+	// versatiles block of 256 x 256 tiles: tile index with 65535 / 65536 / 65537 entries
+	for n in [0usize, 1, 65535, 65536, 65537] {
+		let blockdef = |o: u64, tl: u64, il: u32| {
+			let mut v = vec![8u8];
+			v.extend(0u32.to_be_bytes());
+			v.extend(0u32.to_be_bytes());
+			v.extend([0u8, 0, 255, 255]);
+			v.extend(o.to_be_bytes());
+			v.extend(tl.to_be_bytes());
+			v.extend(il.to_be_bytes());
+			v
+		};
+		let mut ti = Vec::with_capacity(n * 12);
+		for i in 0..n {
+			ti.extend(((i % 4) as u64 * 4).to_be_bytes());
+			ti.extend(4u32.to_be_bytes());
+		}
+		g.push("vt", "entry-count", vt_custom(b"{}", |o, tl, il| blockdef(o, tl, il), &ti, b"AAAABBBBCCCCDDDD"), "8/0/0,8/255/255,8/255/0,8/0/255,8/128/128,8/256/0,7/0/0");
+		if n <= 1 || n == 65536 {
+			g.push("vttidx", "entry-count", ti.clone(), "");
+		}
+	}
+	// --- varint widths: minimal, padded to 9 / 10 / 11 bytes, bits beyond 64
+	for w in [1usize, 2, 9, 10, 11, 12] {
+		for val in [0u64, 1, 3, 127, 300] {
+			let lv = long_varint(val, w);
+			// as a length prefix of a string of that length
+			let mut s = lv.clone();
+			s.extend(std::iter::repeat(b'a').take(val as usize));
+			s.push(0);
+			g.push("pbfstr", "varint-width", s, "");
+			// as the entry count of a PMTiles directory
+			let mut d = lv.clone();
+			for _ in 0..val.min(3) * 4 {
+				d.push(1);
+			}
+			g.push("pmdir", "varint-width", d, "");
+			// as the length of the layer sub-message of a tile
+			let mut t = vec![0x1a];
+			t.extend(&lv);
+			let mut layer = vec![0x0a, 0x01, b'a'];
+			layer.resize(val as usize, 0);
+			if val >= 3 {
+				t.extend(&layer[..val as usize]);
+			}
+			g.push("mvt", "varint-width", t, "");
+		}
+		// all payload bits set: 10th byte carries bits 63..69
+		let mut v = vec![0xffu8; w.saturating_sub(1)];
+		v.push(0x7f);
+		g.push("pbfstr", "varint-width", v.clone(), "");
+		g.push("pmdir", "varint-width", v.clone(), "");
+		let mut t = vec![0x1a];
+		t.extend(&v);
+		g.push("mvt", "varint-width", t, "");
+	}
+	// --- tar: size field at the octal / base-256 limits
+	let m = vec![ifm::TarMember::file("1/0/0.pbf", b"AAAA"), ifm::TarMember::file("tiles.json", b"{}")];
+	if let Ok(t) = ifm::encode_tar(&m, 0) {
+		let fields: &[&[u8]] = &[b"77777777777\0", b"777777777777", b"00000000004\0", b"00000000005\0", b"00000001000\0", b"17777777777\0", b"20000000000\0", b"37777777777\0", b"40000000000\0", b"           \0", b"\0\0\0\0\0\0\0\0\0\0\0\0", b"-0000000001\0", &[0x80, 0, 0, 0, 0, 0, 0, 0, 0, 0, 0, 4], &[0x80, 0, 0, 0, 1, 0, 0, 0, 0, 0, 0, 0], &[0xff; 12], &[0x80, 0x7f, 0xff, 0xff, 0xff, 0xff, 0xff, 0xff, 0xff, 0xff, 0xff, 0xff]];
+		for which in [0usize, 1] {
+			let base = which * 1024; // second header follows 512 header + 512 data
+			if base + 512 > t.len() {
+				continue;
+			}
+			for f in fields {
+				let mut v = t.clone();
+				v[base + 124..base + 136].copy_from_slice(f);
+				for c in &mut v[base + 148..base + 156] {
+					*c = b' ';
+				}
+				let sum: u32 = v[base..base + 512].iter().map(|x| *x as u32).sum();
+				v[base + 148..base + 156].copy_from_slice(format!("{:06o}\0 ", sum).as_bytes());
+				g.push("tar", "size-field", v.clone(), "1/0/0,0/0/0");
+				g.push("tar", "size-field", v, "t600|1/0/0,0/0/0");
+			}
+		}
+	}
+	// --- text decoders: tokens straddling the 4096-byte read buffer of the byte iterator (and 8192)
+	for b in [4096usize, 8192] {
+		for tok in ["\\u00e9", "\\n", "true", "null", "-12.5e+3", "\"\"", "é", "😀", "],[", "\":\""] {
+			for shift in 0..tok.len() + 1 {
+				let start = b - shift;
+				let mut s = String::from("[\"");
+				s.push_str(&"a".repeat(start.saturating_sub(2 + 2)));
+				// close the string before bare tokens
+				let bare = matches!(tok, "true" | "null" | "-12.5e+3" | "],[");
+				if bare {
+					s.push_str("\",");
+				} else {
+					s.push_str("aa");
+				}
+				s.push_str(tok);
+				if bare {
+					s.push_str(",\"");
+				}
+				s.push_str("bbb\"]");
+				g.push("json", "buffer-boundary", s.clone().into_bytes(), "");
+				if shift % 2 == 0 {
+					g.push("tilejson", "buffer-boundary", format!("{{\"x\":{s}}}").into_bytes(), "");
+				}
+			}
+		}
+		for tok in ["\"\"", "\",\"", "\r\n", ",", "é"] {
+			for shift in 0..tok.len() + 1 {
+				let start = b - shift;
+				let mut s = String::from("id,n\n1,\"");
+				s.push_str(&"a".repeat(start.saturating_sub(s.len())));
+				s.push_str(tok);
+				s.push_str("b\"\n");
+				g.push("csv", "buffer-boundary", s.into_bytes(), "");
+			}
+		}
+	}
+}
+
+/// class 3: entries pointing at 0-byte, overlapping, out-of-file and self-referential ranges
+fn odd_ranges(g: &mut G) {
+	let e = |id, off, len, run| ifm::PmEntry { id, off, len, run };
+	let probes = "0/0/0,1/0/0,1/0/1,1/1/1,1/1/0,2/0/0,2/1/1";
+	let data = b"AAAABBBBCCCC";
+	let dirs: Vec<(&str, Vec<ifm::PmEntry>)> = vec![
+		("zero-length", vec![e(0, 0, 0, 1), e(1, 0, 0, 3)]),
+		("overlapping", vec![e(0, 0, 8, 1), e(1, 4, 8, 1), e(2, 2, 10, 1)]),
+		("same-range", vec![e(0, 0, 4, 1), e(1, 0, 4, 1), e(2, 0, 4, 2)]),
+		("out-of-file", vec![e(0, 12, 1, 1), e(1, 11, 2, 1), e(2, 1000, 4, 1), e(3, 0, 13, 1)]),
+		("whole-section", vec![e(0, 0, 12, 1)]),
+		("leaf-zero", vec![e(0, 0, 0, 0)]),
+		("leaf-out-of-file", vec![e(0, 5, 1000, 0), e(1, 1 << 40, 4, 0)]),
+	];
+	for (_name, es) in &dirs {
+		let root = ifm::serialize_dir(es, false);
+		g.push("pm", "odd-ranges", pm_custom(&root, b"{}", &[], data), probes);
+		// the same entries as a leaf directory
+		let leaf = root.clone();
+		let r2 = ifm::serialize_dir(&[e(0, 0, leaf.len() as u64, 0)], false);
+		g.push("pm", "odd-ranges", pm_custom(&r2, b"{}", &leaf, data), probes);
+	}
+	// header sections overlapping each other / the header / covering the whole file
+	let (pm, pmp) = small_pm();
+	let l = pm.len() as u64;
+	for (o, n) in [(0u64, l), (0, 127), (0, 0), (127, 0), (l, 0), (l - 1, 1), (100, 50), (8, 8)] {
+		for at in [8usize, 24, 40, 56] {
+			let mut v = pm.clone();
+			v[at..at + 8].copy_from_slice(&o.to_le_bytes());
+			v[at + 8..at + 16].copy_from_slice(&n.to_le_bytes());
+			g.push("pm", "odd-ranges", v, pmp);
+		}
+	}
+	// versatiles: tile ranges of length 0, overlapping, the whole file, the header, beyond the file;
+	// index range pointing at the block index itself / at the header; meta = whole file
+	let blockdef = |o: u64, tl: u64, il: u32| {
+		let mut v = vec![1u8];
+		v.extend(0u32.to_be_bytes());
+		v.extend(0u32.to_be_bytes());
+		v.extend([0u8, 0, 1, 1]);
+		v.extend(o.to_be_bytes());
+		v.extend(tl.to_be_bytes());
+		v.extend(il.to_be_bytes());
+		v
+	};
+	let tidx = |entries: &[(u64, u32)]| {
+		let mut v = vec![];
+		for (o, l) in entries {
+			v.extend(o.to_be_bytes());
+			v.extend(l.to_be_bytes());
+		}
+		v
+	};
+	let vtp = "1/0/0,1/1/0,1/0/1,1/1/1,0/0/0";
+	for ti in [tidx(&[(0, 0), (0, 0), (0, 0), (0, 0)]), tidx(&[(0, 16), (4, 12), (8, 8), (0, 4)]), tidx(&[(0, 4), (0, 4), (0, 4), (0, 4)]), tidx(&[(16, 1), (15, 2), (1000, 4), (0, 17)]), tidx(&[(0, 1 << 31), (0, u32::MAX), (u64::MAX - 100, 4), (u64::MAX, 0)])] {
+		g.push("vt", "odd-ranges", vt_custom(b"{}", |o, tl, il| blockdef(o, tl, il), &ti, b"AAAABBBBCCCCDDDD"), vtp);
+		// block offset 0: the tile ranges are relative to the start of the file (header bytes as tiles)
+		g.push("vt", "odd-ranges", vt_custom(b"{}", |_, tl, il| blockdef(0, tl, il), &ti, b"AAAABBBBCCCCDDDD"), vtp);
+	}
+	let (vt, _) = small_vt();
+	let l = vt.len() as u64;
+	for (o, n) in [(0u64, l), (0, 66), (0, 0), (66, 0), (l, 0), (l - 1, 1), (50, 16)] {
+		for at in [34usize, 50] {
+			let mut v = vt.clone();
+			v[at..at + 8].copy_from_slice(&o.to_be_bytes());
+			v[at + 8..at + 16].copy_from_slice(&n.to_be_bytes());
+			g.push("vt", "odd-ranges", v, vtp);
+		}
+	}
+	// metadata that does not decode under the declared compression / decodes under another codec
+	for comp in [1u8, 2] {
+		for meta in [b"{\"name\":\"x\"}".to_vec(), ifm::gzip(b"{\"name\":\"x\"}"), ifm::brotli_c(b"{\"name\":\"x\"}"), vec![], vec![0x1f, 0x8b], vec![0x1f, 0x8b, 8, 0, 0, 0, 0, 0, 0, 3]] {
+			let mut v = vt_custom(&meta, |o, tl, il| blockdef(o, tl, il), &tidx(&[(0, 4), (4, 4), (8, 4), (12, 4)]), b"AAAABBBBCCCCDDDD");
+			v[15] = comp;
+			g.push("vt", "payload-codec", v, vtp);
+		}
+	}
+}
+
 pub fn generate(args: &Args) -> Vec<Case> {
 	let mut g = G { rng: Rng::new(args.seed), cases: vec![] };
 	let thorough = args.thorough();
@@ -1203,6 +1660,9 @@ pub fn generate(args: &Args) -> Vec<Case> {
 	json_limit(&mut g);
 	absolute_offsets(&mut g);
 	vpl_limit(&mut g, thorough);
+	structural_damage(&mut g, thorough);
+	thresholds(&mut g);
+	odd_ranges(&mut g);
 	tilejson_cases(&mut g, args.n(600, 10000));
 	text_cases(&mut g, args.n(3000, 80000));
 	mvt_cases(&mut g, args.n(800, 20000));
@@ -1212,6 +1672,7 @@ pub fn generate(args: &Args) -> Vec<Case> {
 	pm_cases(&mut g, args.n(250, 5000), thorough);
 	let scratch = if args.out.is_absolute() { args.out.join("c19gen") } else { std::env::current_dir().unwrap().join(&args.out).join("c19gen") };
 	mb_cases(&mut g, &scratch, args.n(100, 1500));
+	after_open(&mut g, &scratch);
 	let _ = std::fs::remove_dir_all(&scratch);
 	tar_cases(&mut g, args.n(300, 6000));
 	g.cases
